@@ -46,12 +46,13 @@ type killed struct{}
 // ---- frames --------------------------------------------------------------------------------------
 
 type frame struct {
-	fn      *Function
-	isLua   bool
-	lo, hi  int // lines of the innermost statement (or header) being executed
-	varargs []Value
-	tail    bool   // entered by a tail call (level-2 positions are then not defined)
-	sc      *scope // scope in front of the statement being executed (for debug.getlocal)
+	fn       *Function
+	isLua    bool
+	lo, hi   int // lines of the innermost statement (or header) being executed
+	elo, ehi int // lines of the expression whose operation is being performed (0: none)
+	varargs  []Value
+	tail     bool   // entered by a tail call (level-2 positions are then not defined)
+	sc       *scope // scope in front of the statement being executed (for debug.getlocal)
 }
 
 // ---- interpreter ---------------------------------------------------------------------------------
@@ -117,7 +118,7 @@ func (in *Interp) top() *frame {
 func (in *Interp) fault(what string) {
 	for i := len(in.frames) - 1; i >= 0; i-- {
 		if f := in.frames[i]; f.isLua {
-			in.throw(&Opaque{Kind: "fault", Lo: f.lo, Hi: f.hi, Rest: what})
+			in.throw(&Opaque{Kind: "fault", Lo: f.lo, Hi: f.hi, ELo: f.elo, EHi: f.ehi, Rest: what})
 		}
 	}
 	in.throw(&Opaque{Kind: "anystring", Rest: what})
@@ -238,7 +239,9 @@ const (
 	sigGoto
 )
 
-func setPos(f *frame, lo, hi int) { f.lo, f.hi = lo, hi }
+func setPos(f *frame, lo, hi int) { f.lo, f.hi, f.elo, f.ehi = lo, hi, 0, 0 }
+
+func setExpr(f *frame, p Pos) { f.elo, f.ehi = p.First, p.Last }
 
 func (in *Interp) execBlock(b *Block, sc *scope, f *frame) (signal, []Value) {
 	// scopes in front of each statement, so that a backward goto drops later locals
@@ -321,6 +324,7 @@ func (in *Interp) exec(st Stat, sc *scope, f *frame) (signal, []Value, *scope) {
 			case t.cell != nil:
 				*t.cell = vals[i]
 			case t.name == "\x00idx":
+				setExpr(f, s.Targets[i].(*IndexExpr).Pos)
 				in.SetIndex(t.obj, t.key, vals[i])
 			default:
 				in.SetIndex(f.fn.Env, t.name, vals[i])
@@ -495,11 +499,14 @@ func (in *Interp) exec(st Stat, sc *scope, f *frame) (signal, []Value, *scope) {
 			case *CallExpr:
 				fv := in.eval1(c.Fn, sc, f)
 				args := in.evalList(c.Args, sc, f, -1)
+				setExpr(f, c.Pos)
 				return sigReturn, in.call(fv, args, true), sc
 			case *MethodExpr:
 				o := in.eval1(c.Obj, sc, f)
+				setExpr(f, c.Pos)
 				fv := in.Index(o, c.Name)
 				args := append([]Value{o}, in.evalList(c.Args, sc, f, -1)...)
+				setExpr(f, c.Pos)
 				return sigReturn, in.call(fv, args, true), sc
 			}
 		}
@@ -585,11 +592,14 @@ func (in *Interp) evalMulti(e Expr, sc *scope, f *frame) []Value {
 	case *CallExpr:
 		fv := in.eval1(x.Fn, sc, f)
 		args := in.evalList(x.Args, sc, f, -1)
+		setExpr(f, x.Pos)
 		return in.call(fv, args, false)
 	case *MethodExpr:
 		o := in.eval1(x.Obj, sc, f)
+		setExpr(f, x.Pos)
 		fv := in.Index(o, x.Name)
 		args := append([]Value{o}, in.evalList(x.Args, sc, f, -1)...)
+		setExpr(f, x.Pos)
 		return in.call(fv, args, false)
 	case *VarargExpr:
 		return f.varargs
@@ -625,6 +635,7 @@ func (in *Interp) eval1(e Expr, sc *scope, f *frame) Value {
 	case *IndexExpr:
 		o := in.eval1(x.Obj, sc, f)
 		k := in.eval1(x.Key, sc, f)
+		setExpr(f, x.Pos)
 		return in.Index(o, k)
 	case *CallExpr, *MethodExpr:
 		vs := in.evalMulti(e, sc, f)
@@ -651,9 +662,11 @@ func (in *Interp) eval1(e Expr, sc *scope, f *frame) Value {
 		}
 		l := in.eval1(x.L, sc, f)
 		r := in.eval1(x.R, sc, f)
+		setExpr(f, x.Pos)
 		return in.Binary(x.Op, l, r)
 	case *UnExpr:
 		v := in.eval1(x.E, sc, f)
+		setExpr(f, x.Pos)
 		return in.Unary(x.Op, v)
 	case *TableExpr:
 		t := NewTable()
